@@ -15,6 +15,7 @@ package v1
 
 import (
 	"bytes"
+	"crypto/rand"
 	"encoding/json"
 	"errors"
 	"fmt"
@@ -216,11 +217,16 @@ func Decrypt(in io.Reader, opts DecryptOptions) (io.Reader, error) {
 	fileKeyBytes, _ := opts.UnwrapKeyFn(manifestObj.WFK, string(manifestObj.KeyWrappingAlgorithm), keyName, nil, nil)
 	if len(fileKeyBytes) != 32 {
 		// This is where things get a bit tricky.
-		// If the UnwrapKeyFn returned an error, we want to ignore that for now, and instead continue validating the MAC using an empty fileKey (which will fail).
+		// If the UnwrapKeyFn returned an error, we want to ignore that for now, and instead continue validating the MAC using a random fileKey (which will fail).
 		// This is because otherwise we may be making it easier to disclose certain information such as whether a key exists or not in the vault via timing attacks.
 		// What we're doing here doesn't remove timing attacks entirely, starting from the fact that we're putting an `if` block. Also, the underlying components may respond faster if the key isn't available… but at least we can try not making the situation worse!
 		// Also, this takes some time as we're allocating memory, but in the case of err==nil the operation there takes some time too.
+		// The key must not be a fixed one (such as all zeros), or anybody could compute the MAC and the segments of a forged document under it.
 		fileKeyBytes = make([]byte, 32)
+		_, err = io.ReadFull(rand.Reader, fileKeyBytes)
+		if err != nil {
+			return nil, fmt.Errorf("failed to generate random key: %w", err)
+		}
 	}
 
 	// Import the file key
